@@ -18,8 +18,13 @@ mkdir -p "$d/verif/.work" "$d/verif/replays"
 if [ "$patch" != "-" ]; then
   ( cd "$d/repo" && git apply "$patch" ) || { echo "mutcheck: patch does not apply"; exit 3; }
 fi
-args=""
-for a in "$@"; do args="$args '$a'"; done
+args=""; prev=""
+for a in "$@"; do
+  if [ "$prev" = "--replay" ] && [ -f "$a" ]; then   # replay files under /verif/.work are not in the scratch copy: hand a copy in
+    mkdir -p "$d/verif/.work/replay-in"; cp "$a" "$d/verif/.work/replay-in/"; a="/verif/.work/replay-in/$(basename "$a")"
+  fi
+  args="$args '$a'"; prev="$a"
+done
 unshare -m sh -c "mount --bind '$d/repo' /repo && mount --bind '$d/verif' /verif && cd /verif && CHECK_NOLOCK=1 timeout 3000 ./check $pid $args"
 rc=$?
 for f in "$d"/verif/replays/*.json; do
